@@ -26,13 +26,17 @@ import (
 func c05Stress(rng *RNG, round int) string {
 	g := 2 + rng.Intn(7)
 	per := 100 + rng.Intn(300)
+	val := make([]byte, 512+rng.Intn(3000)) // cell values big enough for compression to take a moment
+	for i := range val {
+		val[i] = byte(rng.Intn(7))
+	}
 	q := []int{1, 2, 5, 100}[rng.Intn(4)]
 	v := newVConn()
 	dialer := func(ctx context.Context, network, addr string) (net.Conn, error) { return v, nil }
 	// every other round with cellblock compression (the compressor is shared by all senders of the
 	// connection)
 	var codec compression.Codec
-	if round%2 == 1 {
+	if round%4 != 0 {
 		codec = gsnappy.New()
 	}
 	rc := region.NewClient("vconn:0", region.RegionClient, q, 0, "verif", time.Hour, codec, dialer, discardLogger)
@@ -51,10 +55,10 @@ func c05Stress(rng *RNG, round int) string {
 				c, _ = hrpc.NewGetStr(context.Background(), "t", row, hrpc.SkipBatch())
 				want[row] = "Get"
 			case 1:
-				c, _ = hrpc.NewAppStr(context.Background(), "t", row, map[string]map[string][]byte{"cf": {"q": []byte(row)}}, hrpc.SkipBatch())
+				c, _ = hrpc.NewAppStr(context.Background(), "t", row, map[string]map[string][]byte{"cf": {"q": append([]byte(row), val...)}}, hrpc.SkipBatch())
 				want[row] = "Mutate"
 			default:
-				c, _ = hrpc.NewPutStr(context.Background(), "t", row, map[string]map[string][]byte{"cf": {"q": []byte(row)}})
+				c, _ = hrpc.NewPutStr(context.Background(), "t", row, map[string]map[string][]byte{"cf": {"q": append([]byte(row), val...)}})
 				want[row] = "Mutate"
 			}
 			c.SetRegion(reg)
